@@ -157,6 +157,20 @@ def gen_case(rng, exit_code=None, fn=None, good_cmd=False, signals=(9,)):
     c["inherit"] = inherit
     c["env"] = env
     c["streams"] = "pipe" if rng.random() < 0.3 else "file"      # what the caller's os.Stdin/Stdout/Stderr are reassigned to for the call
+    if c["streams"] == "file" and rng.random() < 0.3:
+        c["stdin_kind"] = rng.choice(STDIN_KINDS[1:])
+        if c["stdin_kind"] == "pty":
+            c["stdin"] = "typed on a terminal\n"
+    if rng.random() < 0.15:                                       # credential-looking names, values used in the command line
+        nm, val = rng.choice(CRED_NAMES), rng.choice(CRED_VALS)
+        where = rng.random()
+        if where < 0.4 or env is None or fn not in WITH_ENV:
+            inherit.append([nm, val])
+        elif where < 0.7:
+            env.append([nm, val])
+        else:
+            inherit.append([nm, "inherited-" + val]); env.append([nm, val])
+        c["args"] = c["args"][:2] + [rng.choice(["$%s", "${%s}", "--password=$%s", "Authorization: Bearer ${%s}"]) % nm]
     return c
 
 
@@ -326,7 +340,7 @@ def make_request(w, c, workdir, idx):
         setenv["MAGEFILE_VERBOSE"] = c["verbose"]
     uses = c["fn"] in WITH_ENV
     raw = {"fn": c["fn"], "cmd": HX(w.subst(c["cmd"])), "args": [HX("x" * BIGLEN if a == BIGARG else a) for a in c["args"]],
-           "setenv": {HX(k): HX(v) for k, v in setenv.items()}, "unset": [], "stdin": HX(c["stdin"]),
+           "setenv": {HX(k): HX(v) for k, v in setenv.items()}, "unset": [], "stdin": HX(c["stdin"]), "stdin_kind": c.get("stdin_kind") or "file",
            "so": c["so"], "se": c["se"], "dump": dump, "tmp": workdir, "wait": wait, "streams": c.get("streams") or "file"}
     if uses and envm is not None:
         raw["env"] = {HX(k): HX(v) for k, v in envm}
@@ -389,6 +403,21 @@ def py_expand(s, look):
 
 def trim_one(b):
     return b[:-1] if b.endswith("\n") else b
+
+
+STDIN_KINDS = ["file", "devnull", "socket", "pty", "dir", "closed"]     # the kind of file behind os.Stdin for the call ("pipe": streams)
+CRED_NAMES = ["GITHUB_TOKEN", "AWS_SECRET_ACCESS_KEY", "DB_PASSWORD", "API_KEY", "NPM_TOKEN", "SSH_AUTH_SOCK", "HTTP_PROXY",
+              "MY_SECRET", "PGPASSWORD", "X_AUTH_TOKEN_2"]      # names carry no meaning for sh - that is the point
+CRED_VALS = ["ghp_0123456789abcdefXYZ", "wJalrXUtnFEMI/K7MDENG/bPxRfiCYEXAMPLEKEY", "hunter2!", "s3cr3t p4ss", "/tmp/ssh-XXXX/agent.123",
+             "http://user:pw@proxy:3128", "abcd", "=tok=en=", "$NOT_EXPANDED_AGAIN"]
+
+
+def stdin_expected(c, a):
+    """what a reader of the descriptor behind os.Stdin gets"""
+    kind = a.get("stdin_kind") or "file"
+    if c.get("streams") == "pipe" or kind in ("file", "socket", "pty"):
+        return c["stdin"]
+    return ""           # /dev/null, a directory (EISDIR), a closed file (EBADF)
 
 
 def wrote(d):
@@ -480,8 +509,9 @@ def oracle(w, c, a, setenv, envm):
             diff = {kk: (got.get(kk), want.get(kk)) for kk in set(got) | set(want) if got.get(kk) != want.get(kk)}
             bad.append("child environment differs (got, expected): %r" % diff)
         # stdin is the caller's
-        if d["stdin_sha"] != hashlib.sha256(B(c["stdin"])).hexdigest() and "member_of_group" not in c:
-            bad.append("the child did not read the caller's stdin (%d bytes read, %d given)" % (d["stdin_len"], len(c["stdin"])))
+        if d["stdin_sha"] != hashlib.sha256(B(stdin_expected(c, a))).hexdigest() and "member_of_group" not in c:
+            bad.append("the child did not read the caller's stdin (os.Stdin is a %s: %d bytes read, %d to be read)" % (
+                       "pipe" if c.get("streams") == "pipe" else (a.get("stdin_kind") or "file"), d["stdin_len"], len(stdin_expected(c, a))))
     # Output: exactly one trailing newline removed
     text = unhex(a["text"])
     if fn in ("Output", "OutputWith"):
@@ -573,7 +603,7 @@ def case_term(w, c, a, envm):
     if d is not None:
         child = child_term(d["exit"], d["sig"], *wrote(d))
         started = "(Some (%s, %s))" % (coq_list([cs(unhex(x)) for x in d["argv"]]), coq_list([cs(unhex(x)) for x in d["env"] if not unhex(x).startswith(LONG_DIRECTIVES)]))
-        stdin_ok = d["stdin_sha"] == hashlib.sha256(B(c["stdin"])).hexdigest()
+        stdin_ok = d["stdin_sha"] == hashlib.sha256(B(stdin_expected(c, a))).hexdigest() or "member_of_group" in c
     else:
         child = child_term(c["exit"], c["sig"], *intended(c))      # what it would have done
         started = "None"
@@ -694,12 +724,37 @@ def run(ctx):
             if ("1048576" in plan or "262144" in plan):
                 c["streams"] = "file" if pi % 2 else "pipe"
             cases.append(c)
+    # the KIND of file behind os.Stdin: every kind through every entry point
+    for kind in STDIN_KINDS:
+        for fn in FNS:
+            c = gen_case(rng, fn=fn, good_cmd=True)
+            c["sig"], c["streams"], c["stdin_kind"] = 0, "file", kind
+            c["stdin"] = "typed on a terminal\n" if kind == "pty" else rng.choice(["stdin data\n", "\x00\x01\xff", "x" * 5000])
+            cases.append(c)
+    # environment NAMES: credential / configuration looking variables, inherited, in the map, or both, their values in the
+    # command line through $VAR; every exit-code class through every entry point
+    for ei, k in enumerate((0, 1, 2, 3, 94, 126, 255)):
+        for fi, fn in enumerate(FNS):
+            c = gen_case(rng, exit_code=k, fn=fn, good_cmd=True)
+            c["sig"] = 0
+            nm, val = CRED_NAMES[(ei * 7 + fi) % len(CRED_NAMES)], CRED_VALS[(ei + 2 * fi) % len(CRED_VALS)]
+            uses = fn in WITH_ENV
+            c["env"] = [kv for kv in (c["env"] or []) if kv[0] != nm] if (c["env"] is not None or uses) else None
+            mode = (ei + fi) % 3 if uses else 0
+            if mode == 0:
+                c["inherit"].append([nm, val])
+            elif mode == 1:
+                c["env"].append([nm, val])
+            else:
+                c["inherit"].append([nm, "inherited-" + val]); c["env"].append([nm, val])
+            c["args"] = c["args"][:1] + ["--token=$%s" % nm, "${%s}" % nm]
+            cases.append(c)
     # CONCURRENT calls: pairs / triples of overlapping calls (the children stay in flight until released, in a scripted order)
     for fx in GROUP_FIXED:
         cases.append(gen_group(rng, fx))
     for _ in range(16 if ctx.quick else 400):
         cases.append(gen_group(rng))
-    nrand = 300 if ctx.quick else 9000
+    nrand = 220 if ctx.quick else 9000
     for _ in range(nrand):
         cases.append(gen_case(rng, signals=signals))
     ncall = len(cases)
@@ -831,6 +886,14 @@ def run(ctx):
     cov["calls_with_write_plan"] = sum(1 for c in cases if c.get("plan"))
     cov["calls_judged_by_oracle_only_too_large_for_coq"] = n_oracle_only
     cov["calls_with_streams_reassigned_to_pipes"] = sum(1 for c in cases if c.get("streams") == "pipe")
+    kinds = {}
+    for c, r in zip(cases, results):
+        if not c.get("raw") and not c.get("group"):
+            kk = "pipe" if c.get("streams") == "pipe" else (r[0].get("stdin_kind") or "file")
+            kinds[kk] = kinds.get(kk, 0) + 1
+    cov["stdin_kinds"] = kinds
+    cov["calls_with_credential_like_names"] = sum(1 for c in cases if not c.get("raw") and not c.get("group") and
+                                                  any(kv[0] in CRED_NAMES for kv in (c["inherit"] + (c["env"] or []))))
     cov["groups_of_overlapping_calls"] = n_groups
     cov["calls_in_groups"] = n_group_calls
     cov["signals_usable_here"] = signals
